@@ -154,6 +154,7 @@ namespace RecInt
             throw Givaro::GivMathDivZero("*** Error: division by zero, in operator RecInt::inv_mod in ruinvmod.h") ;
         }
 #endif
+        if (a2 != 1) reset(a); // b is not invertible modulo c: a = 0, as documented
         return a;
     }
 }
